@@ -19,7 +19,7 @@
 From Coq Require Import String Ascii List Bool Arith ZArith PrimFloat.
 Import ListNotations.
 Require Import Generated PyBase PyStr Lex Format Symbols Split Merge ParseEq ParseModel Solver SolverF Eval EvalFacts EvalF.
-Require Import CodeGen CodeGenF CodeGenFacts CodeGenFacts2 CodeGenFacts3 CodeGenFacts4 CodeGenFacts5 CodeGenFacts6 CodeGenFacts7 CodeGenFacts8 CodeGenFacts9 CodeGenFacts10 CodeGenFacts11 CodeGenFacts12 LexFacts CodeGenLexFacts CodeGenSrc CodeGenSrcFacts CodeGenSrcFacts2 CodeGenBlock CodeGenBlockFacts CodeGenExamples.
+Require Import CodeGen CodeGenF CodeGenFacts CodeGenFacts2 CodeGenFacts3 CodeGenFacts4 CodeGenFacts5 CodeGenFacts6 CodeGenFacts7 CodeGenFacts8 CodeGenFacts9 CodeGenFacts10 CodeGenFacts11 CodeGenFacts12 CodeGenFacts13 LexFacts CodeGenLexFacts CodeGenSrc CodeGenSrcFacts CodeGenSrcFacts2 CodeGenBlock CodeGenBlockFacts CodeGenExamples.
 Open Scope string_scope.
 
 (* ======================= Part A: the generated text ======================= *)
@@ -411,6 +411,57 @@ Theorem C01_test_fuel_suffices row f ts st rest :
   p_test row f ts = Some (st, rest) -> p_test row (test_fuel ts) ts = Some (st, rest).
 Proof. exact (test_fuel_suffices row f ts st rest). Qed.
 Print Assumptions C01_test_fuel_suffices.
+
+(* THE SHAPE OF THE TREE (precedence and associativity), for ALL trees.  `pr row nm lvl e` prints an arithmetic tree with
+   the minimal parentheses of Python's grammar: + - left-associative (level 0), * / left-associative (level 1), unary minus
+   (level 2) binding tighter than * / and looser than **, ** (level 3) with an atom as base and a unary-minus-level exponent
+   (so right-associative), literals / series / calls / parenthesised expressions (level 4).  Reading the printed tokens gives
+   back exactly the tree — for every tree of literals, series, + - * / **, unary minus, abs, max, min, np.exp, np.log … *)
+Theorem C01_print_parse row nm e rest :
+  printable row nm e -> follow0 rest ->
+  p_expr row (tree_fuel (pr nm 0 e ++ rest)) (pr nm 0 e ++ rest) = Some (e, rest).
+Proof. exact (print_parse row nm e rest). Qed.
+Print Assumptions C01_print_parse.
+(* … at statement level: `NAME[k0] = <printed e>` is the assignment of e (integer-literal subtrees folded as CPython does) … *)
+Theorem C01_print_parse_statement row nm y i k0 e :
+  row y = Some i -> printable row nm e ->
+  src_of_tokens row (CRead y k0 :: CAssign :: pr nm 0 e) = Some (y, i, k0, SVal e) /\
+  stmt_of_tokens row (CRead y k0 :: CAssign :: pr nm 0 e)
+  = (if py_ok (fold_ints e) then Some (y, SAssign i k0 (fold_ints e)) else None).
+Proof. exact (print_parse_statement row nm y i k0 e). Qed.
+Print Assumptions C01_print_parse_statement.
+(* … so two different trees never share a token sequence … *)
+Theorem C01_print_injective row nm e1 e2 :
+  printable row nm e1 -> printable row nm e2 -> pr nm 0 e1 = pr nm 0 e2 -> e1 = e2.
+Proof. exact (pr_injective row nm e1 e2). Qed.
+Print Assumptions C01_print_injective.
+(* … and these are the token sequences of the trees in question (a, b, c ANY trees; pr adds parentheses around an operand
+   only where its level is below the one required):   a - b - c  is (a-b)-c;   a-(b-c) needs the parentheses; *)
+Theorem C01_shape_minus_left_assoc nm a b c :
+  pr nm 0 (EBin OSub (EBin OSub a b) c) = ((pr nm 0 a ++ CMinus :: pr nm 1 b) ++ CMinus :: pr nm 1 c)%list /\
+  pr nm 0 (EBin OSub a (EBin OSub b c)) = (pr nm 0 a ++ CMinus :: CLPar :: (pr nm 0 b ++ CMinus :: pr nm 1 c) ++ [CRPar])%list.
+Proof. exact (conj (pr_sub_sub nm a b c) (pr_sub_right nm a b c)). Qed.
+Print Assumptions C01_shape_minus_left_assoc.
+(*   a / b * c  is (a/b)*c;  a/(b*c) needs the parentheses;  a + b * c  is a+(b*c) *)
+Theorem C01_shape_div_left_assoc nm a b c :
+  pr nm 0 (EBin OMul (EBin ODiv a b) c) = ((pr nm 1 a ++ CSlash :: pr nm 2 b) ++ CStar :: pr nm 2 c)%list /\
+  pr nm 0 (EBin ODiv a (EBin OMul b c)) = (pr nm 1 a ++ CSlash :: CLPar :: (pr nm 1 b ++ CStar :: pr nm 2 c) ++ [CRPar])%list /\
+  pr nm 0 (EBin OAdd a (EBin OMul b c)) = (pr nm 0 a ++ CPlus :: pr nm 1 b ++ CStar :: pr nm 2 c)%list.
+Proof. exact (conj (pr_div_mul nm a b c) (conj (pr_div_right nm a b c) (pr_add_mul nm a b c))). Qed.
+Print Assumptions C01_shape_div_left_assoc.
+(*   -a ** b  is -(a**b);  (-a)**b needs the parentheses;  a ** -b  is a**(-b);  a ** b ** c  is a**(b**c);  (a**b)**c needs
+     the parentheses;  -a * b  is (-a)*b;  a * -b  is a*(-b) *)
+Theorem C01_shape_power_and_unary_minus nm a b c :
+  pr nm 0 (ENeg (EBin OPow a b)) = (CMinus :: pr nm 4 a ++ CPow :: pr nm 2 b)%list /\
+  pr nm 0 (EBin OPow (ENeg a) b) = ((CLPar :: (CMinus :: pr nm 2 a) ++ [CRPar]) ++ CPow :: pr nm 2 b)%list /\
+  pr nm 0 (EBin OPow a (ENeg b)) = (pr nm 4 a ++ CPow :: CMinus :: pr nm 2 b)%list /\
+  pr nm 0 (EBin OPow a (EBin OPow b c)) = (pr nm 4 a ++ CPow :: pr nm 4 b ++ CPow :: pr nm 2 c)%list /\
+  pr nm 0 (EBin OPow (EBin OPow a b) c) = ((CLPar :: (pr nm 4 a ++ CPow :: pr nm 2 b) ++ [CRPar]) ++ CPow :: pr nm 2 c)%list /\
+  pr nm 0 (EBin OMul (ENeg a) b) = ((CMinus :: pr nm 2 a) ++ CStar :: pr nm 2 b)%list /\
+  pr nm 0 (EBin OMul a (ENeg b)) = (pr nm 1 a ++ CStar :: CMinus :: pr nm 2 b)%list.
+Proof. exact (conj (pr_neg_pow nm a b) (conj (pr_pow_neg_base nm a b) (conj (pr_pow_neg_exponent nm a b) (conj (pr_pow_pow nm a b c)
+        (conj (pr_pow_left nm a b c) (conj (pr_neg_mul nm a b) (pr_mul_neg nm a b))))))). Qed.
+Print Assumptions C01_shape_power_and_unary_minus.
 
 (* operations CPython performs on Python numbers with another outcome than the float operation (division by a literal zero:
    ZeroDivisionError; a power of two literals: OverflowError, complex or a huge int) are outside the subset: every accepted
